@@ -187,6 +187,13 @@ class StructMember(Typedef):
         """amount of bytes to add before next field. If field dynamic: negative alignment of next field"""
         self.padding = None
 
+    def dependencies(self):
+        """ Type of the member and names used in its array size expression. """
+        yield self.type_name
+        if isinstance(self.size, six.string_types):
+            for symbol in re.findall(r"\b[A-Za-z_]\w*\b", self.size):
+                yield symbol
+
     @property
     def is_array(self):
         return self.bound or self.size or self.greedy
